@@ -72,9 +72,19 @@ PYST = '''def check_status(status):
         return True
     return False
 '''
-TEXT = {"py": PY, "ts": TS, "rs": RS, "pyst": PYST}
-EXT = {"py": ".py", "ts": ".ts", "rs": ".rs", "pyst": ".py"}
-COQ_LANG = {"py": "LPy", "ts": "LTs", "rs": "LRs", "cfg": "LOther", "pyst": "LPy"}
+# directive-carrying variants of the templates: the same code with suppression comments (`# dry: ignore-block`, line-level
+# `thailint: ignore[rule]`).  Whether a directive is honoured is a matter of the file's CONTENT: it must not depend on how the path of
+# the file is spelled (stores keyed by a path string - DRY inline-ignore ranges, file-content caches - are where that goes wrong).
+PYD = PY.replace("\n\ndef compute(x, items):", "\n\n# dry: ignore-block\ndef compute(x, items):").replace(
+    "total = 4242 * x", "total = 4242 * x  # thailint: ignore[magic-numbers]")
+TSD = TS.replace("console.log(x);", "console.log(x); // thailint: ignore[print-statements]")
+PYSTD = PYST.replace('"closed"):', '"closed"):  # thailint: ignore[stringly-typed]')
+assert PYD.count("ignore") == 2 and TSD.count("ignore") == 1 and PYSTD.count("ignore") == 1
+TEXT = {"py": PY, "ts": TS, "rs": RS, "pyst": PYST, "pyd": PYD, "tsd": TSD, "pystd": PYSTD}
+EXT = {"py": ".py", "ts": ".ts", "rs": ".rs", "pyst": ".py", "pyd": ".py", "tsd": ".ts", "pystd": ".py"}
+COQ_LANG = {"py": "LPy", "ts": "LTs", "rs": "LRs", "cfg": "LOther", "pyst": "LPy", "pyd": "LPy", "tsd": "LTs", "pystd": "LPy"}
+BASE_LANG = {"py": "py", "ts": "ts", "rs": "rs", "pyd": "py", "tsd": "ts"}
+DIRECTIVE_VARIANT = {"py": "pyd", "ts": "tsd", "pyst": "pystd"}
 # lines at which each command reports a violation in a template when no path filter applies (a content oracle:
 # validated on every run by the cases in neutral locations)
 RAW = {
@@ -84,6 +94,12 @@ RAW = {
     "pyst": {"stringly-typed": [2], "file-placement": [1], "file-header": [1]},
     "rs": {"magic-numbers": [3], "unwrap-abuse": [2], "clone-abuse": [12], "blocking-async": [7], "file-placement": [1]},
     "cfg": {"file-placement": [1]},
+    # directive-carrying variants (same content oracle; validated in neutral locations): the dry block directive silences the blocks of
+    # `compute`, the line directives silence exactly one finding each; a silenced file still counts as a duplicate partner
+    "pyd": {"magic-numbers": [], "print-statements": [16], "nesting": [15], "srp": [1, 6], "method-property": [2],
+            "stateless-class": [6], "file-placement": [1], "dry": [1, 6], "file-header": [1]},
+    "tsd": {"magic-numbers": [3], "print-statements": [], "file-placement": [1], "dry": [1], "file-header": [1]},
+    "pystd": {"stringly-typed": [], "file-placement": [1], "file-header": [1]},
 }
 RULE_ID = {"magic-numbers": "magic-numbers.numeric-literal", "print-statements": "improper-logging.print-statement",
            "nesting": "nesting.excessive-depth", "srp": "srp.violation", "unwrap-abuse": "unwrap-abuse.unwrap-call",
@@ -109,7 +125,13 @@ REPO_PATS = ["lib/", "tests/", "src/*", "*.ts", "*/util.py", "lib/*.py", "**/mod
 FP_DIRS = ["src", "lib/", "tests", "app/core", "te", "proj", "s", "ok/"]
 CWD_PATS = ["*.py", "*mod.ts", "src/", "lib/*", "*/src/*", "*.rs", "*"]
 NEUTRAL_PARENTS = ["ok", "work", "x1", "code"]
-PROJ_NAMES = ["proj", "proj", "proj", "app", "build", "tests", "my.spec.x"]
+PROJ_NAMES = ["proj", "proj", "proj", "app", "build", "tests", "my.spec.x", "service.v2"]
+# directory names with a dot in them (a directory is not a file because its name has a "suffix"): used as the project's own name, as
+# parents and in the root-detection unit cases
+DOTTED_DIRS = ["service.v2", "api.d", "site.py", "v1.2"]
+# names a path-based test / fixture exemption plausibly keys on although no table of the current source lists them
+EXTRA_PARENTS = ["__tests__", "spec", "testing", "fixtures"]
+PROCS = max(1, int(os.environ.get("VERIF_C09_PROCS", "8")))
 
 
 def special_parents() -> list[str]:
@@ -122,7 +144,7 @@ def special_parents() -> list[str]:
         names.append({".test.": "x.test.y", ".spec.": "a.spec.b", "test_": "test_data", "_test.": "unit_test.d"}.get(m, core))
     for m in t["rust_default_ignore"]:
         names.append(m.strip("/"))
-    names += ["lib", "src", "mod", "my_tests"]
+    names += ["lib", "src", "mod", "my_tests"] + EXTRA_PARENTS + DOTTED_DIRS[:2]
     out = []
     for n in names:
         if n and n not in out and "/" not in n:
@@ -147,7 +169,7 @@ def gen_project(r) -> dict:
         if tuple(rel) in seen or any(tuple(rel[:k]) in seen for k in range(1, len(rel))) or any(s[:len(rel)] == tuple(rel) for s in seen):
             continue
         seen.add(tuple(rel))
-        files.append({"rel": rel, "tpl": lang})
+        files.append({"rel": rel, "tpl": DIRECTIVE_VARIANT[lang] if lang in DIRECTIVE_VARIANT and r.random() < 0.3 else lang})
     cfg = json.loads(json.dumps(BASE_CFG))
     lint_ign = {}
     for cmd in CMDS:
@@ -255,7 +277,7 @@ def gen_matrix(seed: int, n_projects: int) -> list[dict]:
         r = rng_for(seed, PROP, "matrix", i)
         project = gen_project(r)
         have = {f["tpl"] for f in project["files"]}
-        for lang in ("py", "ts", "rs"):   # every command must have something to find
+        for lang in ("py", "ts", "rs", "pyd", "tsd"):   # every command must have something to find; every directive must occur
             if lang not in have:
                 project["files"].append({"rel": [r.choice(NEUTRAL_DIRS), "extra_" + lang + EXT[lang]], "tpl": lang})
         dry_project = gen_dry_project(r)
@@ -281,14 +303,21 @@ def gen_matrix(seed: int, n_projects: int) -> list[dict]:
                         inv["cwd"] = "proj"
                 invs.append(inv)
             parents = [nm] if r.random() < 0.7 else [nm, r.choice(NEUTRAL_PARENTS)]
-            groups.append({"id": f"m{i}.{li}", "via": "api", "project": project, "loc": {"parents": parents, "name": "proj"}, "invs": invs})
+            # every third location: the special name is the project directory's OWN name (under a neutral parent); otherwise the project is
+            # called proj or has a dotted name (a directory whose name has a "suffix" is still a directory)
+            pname = "proj"
+            if (i + li) % 3 == 1 and nm != ".git":
+                parents, pname = [r.choice(NEUTRAL_PARENTS)], nm
+            elif (i + li) % 3 == 2:
+                pname = DOTTED_DIRS[(i + li // 3) % len(DOTTED_DIRS)]
+            groups.append({"id": f"m{i}.{li}", "via": "api", "project": project, "loc": {"parents": parents, "name": pname}, "invs": invs})
             # the same location through the process-pool path (lint_files_parallel / lint_directory_parallel, 2 workers): the
             # parallel run must report what the specification says for every spelling
             cwd, spelling, target = par_spellings[(i + li) % len(par_spellings)]
             pinv = {"cwd": cwd, "spelling": spelling, "target": target, "cmd": CMDS[(i + li) % len(CMDS)], "parallel": 2}
             if target == "files":
                 pinv["pick"] = list(range(len(project["files"])))
-            groups.append({"id": f"p{i}.{li}", "via": "api", "pool": True, "project": project, "loc": {"parents": parents, "name": "proj"},
+            groups.append({"id": f"p{i}.{li}", "via": "api", "pool": True, "project": project, "loc": {"parents": parents, "name": pname},
                            "invs": [pinv]})
             # the cross-file rule at the same location: absolute spelling through the process pool, plus one rotating spelling
             dcwd, dsp, dtg = par_spellings[(i + li + 1) % len(par_spellings)]
@@ -297,7 +326,7 @@ def gen_matrix(seed: int, n_projects: int) -> list[dict]:
             for dv in dinvs:
                 if dv["target"] == "files":
                     dv["pick"] = list(range(len(dry_project["files"])))
-            groups.append({"id": f"d{i}.{li}", "via": "api", "pool": True, "project": dry_project, "loc": {"parents": parents, "name": "proj"},
+            groups.append({"id": f"d{i}.{li}", "via": "api", "pool": True, "project": dry_project, "loc": {"parents": parents, "name": pname},
                            "invs": dinvs})
             scwd, ssp, stg = par_spellings[(i + li + 2) % len(par_spellings)]
             sinvs = [{"cwd": "home", "spelling": "abs", "target": "dir", "cmd": "stringly-typed"},
@@ -305,7 +334,7 @@ def gen_matrix(seed: int, n_projects: int) -> list[dict]:
             for sv in sinvs:
                 if sv["target"] == "files":
                     sv["pick"] = list(range(len(st_project["files"])))
-            groups.append({"id": f"s{i}.{li}", "via": "api", "pool": True, "project": st_project, "loc": {"parents": parents, "name": "proj"},
+            groups.append({"id": f"s{i}.{li}", "via": "api", "pool": True, "project": st_project, "loc": {"parents": parents, "name": pname},
                            "invs": sinvs})
     return groups
 
@@ -322,10 +351,13 @@ def gen_dry_project(r, n_min: int = 6) -> dict:
         project["lint_ign"]["dry"] = r.sample(["lib/", "tests/", "src/", "test", "mod", "/src/", "proj/", "ok/", "util", "build/"], r.choice([1, 2]))
         cfg["dry"]["ignore"] = project["lint_ign"]["dry"]
     j = 0
-    while len(project["files"]) < n_min or sum(f["tpl"] == "py" for f in project["files"]) < 2 or sum(f["tpl"] == "ts" for f in project["files"]) < 2:
+    while (len(project["files"]) < n_min or sum(BASE_LANG[f["tpl"]] == "py" for f in project["files"]) < 2
+           or sum(BASE_LANG[f["tpl"]] == "ts" for f in project["files"]) < 2):
         lang = ["py", "ts"][j % 2]
         dirs = [r.choice(NEUTRAL_DIRS + SPECIAL_DIRS) for _ in range(r.choice([1, 1, 2]))]
-        project["files"].append({"rel": dirs + [f"{r.choice(STEMS[lang])}{j}{EXT[lang]}"], "tpl": lang})
+        # every other Python filler carries the `# dry: ignore-block` directive (its remaining blocks are still reported)
+        project["files"].append({"rel": dirs + [f"{r.choice(STEMS[lang])}{j}{EXT[lang]}"],
+                                 "tpl": DIRECTIVE_VARIANT[lang] if r.random() < (0.5 if lang == "py" else 0.25) else lang})
         j += 1
     project["extra"] = {".thailint.yaml": json.dumps(cfg, indent=1)}
     project["root_pats"] = []
@@ -356,7 +388,7 @@ def gen_st_project(r, n_min: int = 5) -> dict:
         if tuple(rel) in seen or any(tuple(rel[:k]) in seen for k in range(1, len(rel))) or any(x[:len(rel)] == tuple(rel) for x in seen):
             continue
         seen.add(tuple(rel))
-        files.append({"rel": rel, "tpl": tpl})
+        files.append({"rel": rel, "tpl": DIRECTIVE_VARIANT[tpl] if tpl in DIRECTIVE_VARIANT and r.random() < 0.3 else tpl})
     base["extra"][".thailint.yaml"] = json.dumps(cfg, indent=1)
     return {"files": files, "extra": base["extra"], "lint_ign": lint_ign, "root_pats": base["root_pats"], "marker": base["marker"]}
 
@@ -399,7 +431,8 @@ def gen_parallel_cli(seed: int, n_projects: int) -> list[dict]:
         while len(project["files"]) < 17:
             lang = ["py", "ts", "rs"][j % 3]
             dirs = [r.choice(NEUTRAL_DIRS + SPECIAL_DIRS) for _ in range(r.choice([1, 1, 2]))]
-            project["files"].append({"rel": dirs + [f"{r.choice(STEMS[lang])}{j}{EXT[lang]}"], "tpl": lang})
+            project["files"].append({"rel": dirs + [f"{r.choice(STEMS[lang])}{j}{EXT[lang]}"],
+                                     "tpl": DIRECTIVE_VARIANT[lang] if lang in DIRECTIVE_VARIANT and r.random() < 0.3 else lang})
             j += 1
         rels = [tuple(f["rel"]) for f in project["files"]]
         if any(a != b and b[:len(a)] == a for a in rels for b in rels):
@@ -594,14 +627,14 @@ def _nats(xs) -> str:
     return coq.coq_list([str(int(x)) for x in xs])
 
 
-def coq_case(group: dict, inv: dict, rec: dict) -> str:
+def coq_case(group: dict, inv: dict, rec: dict, fn: str = "judge") -> str:
     chain = coq.coq_list([f"(LV {coq.coq_string(n)} {_strs(h)})" for n, h in rec["chain"]])
     files = coq.coq_list([
         f"(Build_jfile (GP {coq.coq_bool(f['given'][0])} {_strs(f['given'][1])}) {COQ_LANG[f['tpl']]} {_nats(f['raw'])} {_strs(f['rel'])} {_nats(f['impl'])})"
         for f in rec["files"]])
     cfgd = group["project"]["lint_ign"].get(inv["cmd"])
     configured = "None" if cfgd is None else f"(Some {_strs(cfgd)})"
-    return (f"judge pathloc_actual {coq.coq_string(inv['cmd'])} {chain} {rec['proj_depth']} {_strs(rec['cwd_parts'])} "
+    return (f"{fn} pathloc_actual {coq.coq_string(inv['cmd'])} {chain} {rec['proj_depth']} {_strs(rec['cwd_parts'])} "
             f"{_strs(group['project']['root_pats'])} {_strs(inv.get('cwd_pats') or [])} {configured} {files}")
 
 
@@ -632,8 +665,9 @@ def fallback_theories(workdir: Path) -> Path | None:
 
 
 def eval_shards_in(th: Path | None, workdir: Path, shards: list[str]):
-    if th is None:
+    if th is None and "VERIF_C09_PROCS" not in os.environ:
         return coq.eval_shards(workdir, HEADER, shards)
+    th = th or coq.TH   # a worker limit was asked for (busy machine): same coqc command, at most PROCS at a time
     import subprocess
     from concurrent.futures import ThreadPoolExecutor
     workdir.mkdir(parents=True, exist_ok=True)
@@ -649,15 +683,15 @@ def eval_shards_in(th: Path | None, workdir: Path, shards: list[str]):
         if r.returncode != 0:
             raise RuntimeError(f"coqc failed on {p.name}: {r.stderr[-800:]}")
         return coq.parse_nat_lists(r.stdout)
-    with ThreadPoolExecutor(max_workers=8) as ex:
+    with ThreadPoolExecutor(max_workers=PROCS) as ex:
         return list(ex.map(one, paths))
 
 
-def judge(items, workdir: Path, per_shard=60, th: Path | None = None):
+def judge(items, workdir: Path, per_shard=60, th: Path | None = None, fn: str = "judge"):
     shards, index = [], []
     for s in range(0, len(items), per_shard):
         chunk = list(range(s, min(len(items), s + per_shard)))
-        shards.append("\n".join(f"Eval vm_compute in ({coq_case(*items[j])})." for j in chunk))
+        shards.append("\n".join(f"Eval vm_compute in ({coq_case(*items[j], fn=fn)})." for j in chunk))
         index.append(chunk)
     outs = eval_shards_in(th, workdir, shards)
     verdicts = [None] * len(items)
@@ -678,7 +712,7 @@ def gen_root_cases(seed: int, n: int) -> list[dict]:
         levels = []
         for _ in range(depth):
             has = [m for m in (".git", ".thailint.yaml", "pyproject.toml") if r.random() < 0.22]
-            levels.append({"name": r.choice(NEUTRAL_DIRS + SPECIAL_DIRS + NEUTRAL_PARENTS), "has": has,
+            levels.append({"name": r.choice(NEUTRAL_DIRS + SPECIAL_DIRS + NEUTRAL_PARENTS + DOTTED_DIRS + DOTTED_DIRS), "has": has,
                            "wrong_kind": [m for m in (".git", ".thailint.yaml", "pyproject.toml") if m not in has and r.random() < 0.08]})
         out.append({"levels": levels, "file_target": r.random() < 0.4, "relative": r.random() < 0.5})
     return out
@@ -753,7 +787,9 @@ def run(tier: str, seed: int, replay: str | None = None) -> int:
                 "(`mod.py`, `../x/mod.py`, `.` in a sub-directory) and --parallel / lint_files_parallel variants (a project with >= 2 x workers "
                 "files through the CLI, 2 workers in-process), the cross-file rule dry (dedicated projects with known duplicate partners, "
                 "sequential and parallel) and the group-level `--config <project config>` option in relative / absolute spelling combined "
-                "with every target spelling. A case (= one invocation) is "
+                "with every target spelling. About a third of the Python / TypeScript files carry suppression directives (`# dry: ignore-block`, "
+                "line-level `thailint: ignore[rule]`) whose effect must not depend on the spelling; the project directory itself is called proj, "
+                "after every special name, or has a dotted name (service.v2, api.d, ...). A case (= one invocation) is "
                 "non-trivial when at least one targeted file has a finding of the command's rule in its text; distinct = distinct "
                 "(project, location, cwd, spelling, targets, command). Plus unit-level cases for project-root detection (marker layouts).")
     chk.trusted_base += [
@@ -762,8 +798,10 @@ def run(tier: str, seed: int, replay: str | None = None) -> int:
         "absolute patterns and symlinked / non-normalised paths are outside the model's domain",
         "the file system (os.walk order, Path.resolve, marker existence) and click argument handling are oracles; the marker chain handed to the "
         "model is read from the real scratch tree",
-        "dry / stringly-typed: only the shape of their ignore idiom is read from the source (Gen.unmodelled_pipeline_ignore_kinds); their "
-        "cross-file pipelines are not modelled or run by this check",
+        "dry / stringly-typed: which files take part, which have a partner and which violations survive the path filters is modelled "
+        "(xfile_result); what the token / pattern analysis finds in the template texts (duplicate blocks, repeated membership test) and the "
+        "effect of a suppression directive on the findings of its own file are content oracles (table RAW, validated in neutral locations)",
+        "cqs has no CLI command of its own: only the shape of its ignore idiom is read from the source (Gen.unmodelled_pipeline_ignore_kinds)",
     ]
     import time as _t
     t0 = _t.time()
@@ -793,12 +831,12 @@ def run(tier: str, seed: int, replay: str | None = None) -> int:
     pooled = [k for k, g in enumerate(groups) if g.get("pool")]
     plain = [k for k, g in enumerate(groups) if not g.get("pool")]
     results = [None] * len(groups)
-    for k, res in zip(plain, pool_map(run_group, [groups[k] for k in plain], procs=8, chunks=1)):
+    for k, res in zip(plain, pool_map(run_group, [groups[k] for k in plain], procs=PROCS, chunks=1)):
         results[k] = res
     if pooled:
         import multiprocessing as _mp
         from concurrent.futures import ProcessPoolExecutor
-        with ProcessPoolExecutor(max_workers=6, mp_context=_mp.get_context("fork")) as ex:
+        with ProcessPoolExecutor(max_workers=min(6, PROCS), mp_context=_mp.get_context("fork")) as ex:
             for k, res in zip(pooled, ex.map(run_group, [groups[k] for k in pooled])):
                 results[k] = res
     phases["cli"] = round(_t.time() - t0, 1)
@@ -807,7 +845,7 @@ def run(tier: str, seed: int, replay: str | None = None) -> int:
         for inv, rec in zip(g["invs"], recs):
             items.append((g, inv, rec))
     t0 = _t.time()
-    root_res = pool_map(run_root_case, root_cases, procs=8) if root_cases else []
+    root_res = pool_map(run_root_case, root_cases, procs=PROCS) if root_cases else []
     phases["root_unit"] = round(_t.time() - t0, 1)
     t0 = _t.time()
     with scratch_dir("tv-c09-coq-") as wd:
@@ -818,7 +856,11 @@ def run(tier: str, seed: int, replay: str | None = None) -> int:
                              "recorded generated layer coq/Gen.expected/PathLocGen.v.txt" if th else
                              "the generated layer / model no longer builds and no recorded layer is available: cases could not be judged")
         try:
-            verdicts = judge(items, wd / "cli", th=th)
+            # first pass: the alternative quirk vectors are evaluated only for the cases that need an explanation; as soon as one case
+            # disagrees with the claimed vector every case is judged again against all candidates
+            verdicts = judge(items, wd / "cli", th=th, fn="judge_lazy")
+            if any(v is not None and len(v) > 3 and not v[3] for v in verdicts):
+                verdicts = judge(items, wd / "cli_full", th=th, fn="judge")
             rshards = []
             for s in range(0, len(root_res), 60):
                 rshards.append("\n".join(
